@@ -415,9 +415,17 @@ inductive PV
   | o (v : Option Nat)
 deriving DecidableEq, Repr
 
-/-- the payload codec of a plain field: `u32` (4 bytes LE) or `Option<u32>` (one byte 0/1, then the value); the same
-in both formats -/
-def pvCdc (isOpt : Bool) : Cdc PV where
+/-- the tag byte of an `Option`: 1 = `Some`; bincode accepts only 0 as `None`, nanoserde's `DeBin for Option` takes
+EVERY other byte as `None` -/
+def optTag (f : Fmt) (t : Nat) : Option Bool :=
+  if t = 1 then some true
+  else match f with
+    | .nano => some false
+    | .bincode => if t = 0 then some false else none
+
+/-- the payload codec of a plain field: `u32` (4 bytes LE) or `Option<u32>` (one tag byte, then the value); the two
+formats write the same bytes and differ in which tag bytes they accept -/
+def pvCdc (f : Fmt) (isOpt : Bool) : Cdc PV where
   enc
     | .u v => encElem v
     | .o none => [0]
@@ -425,9 +433,12 @@ def pvCdc (isOpt : Bool) : Cdc PV where
   dec bs :=
     if isOpt then
       match bs with
-      | 0 :: r => some (.o none, r)
-      | 1 :: r => (decElem r).map fun (v, r) => (.o (some v), r)
-      | _ => none
+      | t :: r =>
+        match optTag f t with
+        | some true => (decElem r).map fun (v, r) => (.o (some v), r)
+        | some false => some (.o none, r)
+        | none => none
+      | [] => none
     else (decElem bs).map fun (v, r) => (.u v, r)
 
 /-! fields holding a RECURSIVE MAP whose values are flat structs: the payload is the hand-written codec of
@@ -440,21 +451,21 @@ structure LeafTy where
   opts : List Bool
 deriving DecidableEq, Repr
 
-def decVals : List Bool → Bytes → Option (List PV × Bytes)
+def decVals (f : Fmt) : List Bool → Bytes → Option (List PV × Bytes)
   | [], bs => some ([], bs)
   | o :: t, bs =>
-    match (pvCdc o).dec bs with
+    match (pvCdc f o).dec bs with
     | none => none
-    | some (v, r) => (decVals t r).map fun (vs, r') => (v :: vs, r')
+    | some (v, r) => (decVals f t r).map fun (vs, r') => (v :: vs, r')
 
 /-- a struct value: its fields in declaration order -/
-def valsCdc (opts : List Bool) : Cdc (List PV) where
-  enc vs := (vs.map (pvCdc false).enc).flatten
-  dec := decVals opts
+def valsCdc (f : Fmt) (opts : List Bool) : Cdc (List PV) where
+  enc vs := (vs.map (pvCdc f false).enc).flatten
+  dec := decVals f opts
 
 def leafEntriesCdc (f : Fmt) (L : LeafTy) : Cdc (List (Nat × PV)) where
-  enc := encEntries f L.skips (fun j => pvCdc (L.opts.getD j false))
-  dec := decEntries f L.skips (fun j => pvCdc (L.opts.getD j false))
+  enc := encEntries f L.skips (fun j => pvCdc f (L.opts.getD j false))
+  dec := decEntries f L.skips (fun j => pvCdc f (L.opts.getD j false))
 
 abbrev LeafDiff := RMap.Diff Nat (List PV) (List (Nat × PV))
 
@@ -481,15 +492,18 @@ inductive FKind
   | rmap (L : LeafTy)
 deriving DecidableEq, Repr
 
-/-- `Option<T>` of a payload: one byte 0 / 1, then the payload (both formats) -/
-def optCdc {β : Type} (c : Cdc β) : Cdc (Option β) where
+/-- `Option<T>` of a payload: one tag byte, then the payload -/
+def optCdc {β : Type} (f : Fmt) (c : Cdc β) : Cdc (Option β) where
   enc
     | none => [0]
     | some x => 1 :: c.enc x
   dec
-    | 0 :: r => some (none, r)
-    | 1 :: r => (c.dec r).map fun (x, r) => (some x, r)
-    | _ => none
+    | t :: r =>
+      match optTag f t with
+      | some true => (c.dec r).map fun (x, r) => (some x, r)
+      | some false => some (none, r)
+      | none => none
+    | [] => none
 
 /-- number of enum variants a field of this kind contributes -/
 def FKind.width : FKind → Nat
@@ -500,17 +514,17 @@ def FKind.width : FKind → Nat
 `recurse`: the whole new value) -/
 def plCdc (f : Fmt) : FKind → Nat → Cdc PL
   | .flat o, _ =>
-    { enc := fun p => match p with | .pv p => (pvCdc o).enc p | _ => []
-      dec := fun bs => ((pvCdc o).dec bs).map fun (p, r) => (.pv p, r) }
+    { enc := fun p => match p with | .pv p => (pvCdc f o).enc p | _ => []
+      dec := fun bs => ((pvCdc f o).dec bs).map fun (p, r) => (.pv p, r) }
   | .nested L, _ =>
     { enc := fun p => match p with | .ne es => (leafEntriesCdc f L).enc es | _ => []
       dec := fun bs => ((leafEntriesCdc f L).dec bs).map fun (es, r) => (.ne es, r) }
   | .optNested L, 0 =>
-    { enc := fun p => match p with | .on o => (optCdc (leafEntriesCdc f L)).enc o | _ => []
-      dec := fun bs => ((optCdc (leafEntriesCdc f L)).dec bs).map fun (o, r) => (.on o, r) }
+    { enc := fun p => match p with | .on o => (optCdc f (leafEntriesCdc f L)).enc o | _ => []
+      dec := fun bs => ((optCdc f (leafEntriesCdc f L)).dec bs).map fun (o, r) => (.on o, r) }
   | .optNested L, _ =>
-    { enc := fun p => match p with | .full vs => (valsCdc L.opts).enc vs | _ => []
-      dec := fun bs => ((valsCdc L.opts).dec bs).map fun (vs, r) => (.full vs, r) }
+    { enc := fun p => match p with | .full vs => (valsCdc f L.opts).enc vs | _ => []
+      dec := fun bs => ((valsCdc f L.opts).dec bs).map fun (vs, r) => (.full vs, r) }
   | .ord, _ =>
     { enc := fun p => match p with | .sc s => encScript f s | _ => []
       dec := fun bs => (decScript f bs).map fun (s, r) => (.sc s, r) }
@@ -521,20 +535,20 @@ def plCdc (f : Fmt) : FKind → Nat → Cdc PL
     { enc := fun p => match p with | .um d => encMDiff f d | _ => []
       dec := fun bs => (decMDiff f bs).map fun (d, r) => (.um d, r) }
   | .rmap L, _ =>
-    { enc := fun p => match p with | .rm d => encRDiff f (valsCdc L.opts) (leafEntriesCdc f L) d | _ => []
-      dec := fun bs => (decRDiff f (valsCdc L.opts) (leafEntriesCdc f L) bs).map fun (d, r) => (.rm d, r) }
+    { enc := fun p => match p with | .rm d => encRDiff f (valsCdc f L.opts) (leafEntriesCdc f L) d | _ => []
+      dec := fun bs => (decRDiff f (valsCdc f L.opts) (leafEntriesCdc f L) bs).map fun (d, r) => (.rm d, r) }
 
 /-- the borrowed form (`DiffRef`): flat payloads and nested entry lists are written identically, the collection diffs
 through the borrowed encoders / tables -/
 def plEncRef (f : Fmt) : FKind → Nat → PL → Bytes
-  | .flat o, _, .pv p => (pvCdc o).enc p
+  | .flat o, _, .pv p => (pvCdc f o).enc p
   | .nested L, _, .ne es => (leafEntriesCdc f L).enc es
-  | .optNested L, 0, .on o => (optCdc (leafEntriesCdc f L)).enc o
-  | .optNested L, _ + 1, .full vs => (valsCdc L.opts).enc vs
+  | .optNested L, 0, .on o => (optCdc f (leafEntriesCdc f L)).enc o
+  | .optNested L, _ + 1, .full vs => (valsCdc f L.opts).enc vs
   | .ord, _, .sc s => encScriptRef f s
   | .uarr, _, .ua d => encUDiffRef f d
   | .umap, _, .um d => encMDiffRef f d
-  | .rmap L, _, .rm d => encRDiffRef f (valsCdc L.opts) (leafEntriesCdc f L) d
+  | .rmap L, _, .rm d => encRDiffRef f (valsCdc f L.opts) (leafEntriesCdc f L) d
   | _, _, _ => []
 
 end Codec
